@@ -387,8 +387,8 @@ package cisco
 //vc:ghost var routeManaged bool
 //vc:ghost var routeGiven *cmd
 //vc:func (*State).diffRoutes
-//vc:  assert[C01,C02] at "delete(delDst, dstOfRoute(c))" @deviceRouteReplacedOnce found
-//vc:  assert[C01,C02] at "delete(delDst, dstOfRoute(c))" @replacedRouteMarked del.needed
+//vc:  assert[C01,C02,C08] at "delete(delDst, dstOfRoute(c))" @deviceRouteReplacedOnce found
+//vc:  assert[C01,C02,C08] at "delete(delDst, dstOfRoute(c))" @replacedRouteMarked del.needed
 //vc:  assign after "if vrf := dstOfRoute(c).vrf; chgVRF[vrf]" routeManaged = (callresult.vrf in chgVRF) && chgVRF[callresult.vrf]
 //vc:  assign after "s.delCmds([]*cmd{c})" routeGiven = c
 //vc:  invariant[C01,C02] 7 "for _, c := range al[r.LowA:r.HighA]" @obsoleteRouteOfManagedVRFDeleted forall k int :: { rangeslice[k] } k == rangeindex && 0 <= k && routeManaged ==> routeGiven == rangeslice[k]
